@@ -276,8 +276,10 @@ func (x *Ctx) fastLoopRule(r *core.Result, rs *core.RuleStat, name string) {
 		r.Fail(rs, name+":"+k, w.Pos(pos), msg)
 		ok = false
 	}
-	// loop cursor: phi used as index of data in the loop, incremented by 1
-	var cursor *ssa.Phi
+	// loop cursor: a phi incremented by 1 (for ; p < len(data); p++), or start + i for the index i of a range over
+	// data[start:]
+	cursors := map[ssa.Value]bool{}
+	var start ssa.Value
 	for _, b := range fn.Blocks {
 		for _, ins := range b.Instrs {
 			phi, isPhi := ins.(*ssa.Phi)
@@ -287,26 +289,46 @@ func (x *Ctx) fastLoopRule(r *core.Result, rs *core.RuleStat, name string) {
 			for _, e := range phi.Edges {
 				if add, isAdd := e.(*ssa.BinOp); isAdd && add.Op == token.ADD && add.X == ssa.Value(phi) {
 					if k, isC := constBig(add.Y); isC && k.Int64() == 1 {
-						cursor = phi
+						// a range index starts at -1 and is used incremented; anything else is the cursor itself
+						var init ssa.Value
+						for _, e2 := range phi.Edges {
+							if e2 != ssa.Value(add) {
+								init = e2
+							}
+						}
+						if k0, isK := constBig(init); isK && k0.Int64() == -1 {
+							// i = add; look for start + i with data[start:] the ranged slice
+							for _, ref := range *add.Referrers() {
+								if sum, isSum := ref.(*ssa.BinOp); isSum && sum.Op == token.ADD && sum.Y == ssa.Value(add) {
+									ranged := false
+									for _, r2 := range *add.Referrers() {
+										if ia, isIA := r2.(*ssa.IndexAddr); isIA {
+											if sl, isSl := ia.X.(*ssa.Slice); isSl && sl.X == ssa.Value(data) && sl.Low == sum.X && sl.High == nil {
+												ranged = true
+											}
+										}
+									}
+									if ranged {
+										cursors[sum] = true
+										start = sum.X
+									}
+								}
+							}
+						} else if init != nil && len(cursors) == 0 {
+							cursors[phi] = true
+							start = init
+						}
 					}
 				}
 			}
 		}
 	}
-	if cursor == nil {
+	if len(cursors) == 0 {
 		fail("loop", "no scanning loop found", fn.Pos())
 		return
 	}
-	// start = the cursor's entry value = (whitespace count + 1)
-	var start ssa.Value
-	for _, e := range cursor.Edges {
-		if add, isAdd := e.(*ssa.BinOp); isAdd && add.X == ssa.Value(cursor) {
-			continue
-		}
-		start = e
-	}
 	if start == nil {
-		fail("start", "cannot identify the position after the opening quote", cursor.Pos())
+		fail("start", "cannot identify the position after the opening quote", fn.Pos())
 		return
 	}
 	n := 0
@@ -333,7 +355,7 @@ func (x *Ctx) fastLoopRule(r *core.Result, rs *core.RuleStat, name string) {
 				continue
 			}
 			n++
-			if sl.Low != start || sl.High != ssa.Value(cursor) {
+			if sl.Low != start || !cursors[sl.High] {
 				fail("segment", "the bytes copied are not data[<after the opening quote> : <cursor>]", ins.Pos())
 			}
 		}
@@ -346,7 +368,7 @@ func (x *Ctx) fastLoopRule(r *core.Result, rs *core.RuleStat, name string) {
 		for _, ins := range b.Instrs {
 			if c, isCall := ins.(*ssa.Call); isCall && c.Call.StaticCallee() != nil && x.Machine(c.Call.StaticCallee().Name()) != nil {
 				sl, isSl := c.Call.Args[0].(*ssa.Slice)
-				if !isSl || sl.X != ssa.Value(data) || sl.Low != ssa.Value(cursor) || sl.High != nil {
+				if !isSl || sl.X != ssa.Value(data) || !cursors[sl.Low] || sl.High != nil {
 					fail("handover", "the escape machine is not started at the cursor (data[p:])", c.Pos())
 				}
 			}
@@ -592,7 +614,91 @@ func (x *Ctx) unescapeUnicodeRule(r *core.Result, rs *core.RuleStat) {
 	if !neg {
 		fail("reject", "a malformed first escape does not return (dst unchanged, _, false)", first.Pos())
 	}
-	// returns
+	// returns: what is encoded and how many bytes are reported, judged against the facts known on that path
+	type facts struct{ sur, notSur, pairValid, pairInvalid bool }
+	classify := func(cond ssa.Value, truth bool, f *facts) {
+		if u, isNot := cond.(*ssa.UnOp); isNot && u.Op == token.NOT {
+			cond, truth = u.X, !truth
+		}
+		if cond == ssa.Value(isSur) {
+			if truth {
+				f.sur = true
+			} else {
+				f.notSur = true
+			}
+			return
+		}
+		if be, isBe := cond.(*ssa.BinOp); isBe && (be.Op == token.NEQ || be.Op == token.EQL) && be.X == ssa.Value(dec) {
+			if k, isK := constBig(be.Y); isK && k.Int64() == 0xFFFD {
+				valid := (be.Op == token.NEQ) == truth
+				if valid {
+					f.pairValid = true
+				} else {
+					f.pairInvalid = true
+				}
+			}
+		}
+	}
+	factsAt := func(b *ssa.BasicBlock) facts {
+		var f facts
+		for d := b; d != nil; d = d.Idom() {
+			dom := d.Idom()
+			if dom == nil {
+				break
+			}
+			iff, isIf := dom.Instrs[len(dom.Instrs)-1].(*ssa.If)
+			if !isIf {
+				continue
+			}
+			for i, sc := range dom.Succs {
+				if (sc == d || sc.Dominates(d)) && len(sc.Preds) == 1 && dom.Succs[1-i] != sc {
+					classify(iff.Cond, i == 0, &f)
+				}
+			}
+		}
+		return f
+	}
+	factsOnEdge := func(pred, blk *ssa.BasicBlock) facts {
+		f := factsAt(pred)
+		if iff, isIf := pred.Instrs[len(pred.Instrs)-1].(*ssa.If); isIf && pred.Succs[0] != pred.Succs[1] {
+			if pred.Succs[0] == blk {
+				classify(iff.Cond, true, &f)
+			} else if pred.Succs[1] == blk {
+				classify(iff.Cond, false, &f)
+			}
+		}
+		return f
+	}
+	// judge6: rune v written for a single escape under facts f
+	var judge6 func(v ssa.Value, f facts, at *ssa.BasicBlock, seen map[ssa.Value]bool) bool
+	judge6 = func(v ssa.Value, f facts, at *ssa.BasicBlock, seen map[ssa.Value]bool) bool {
+		if v == ssa.Value(first) {
+			return f.notSur // the code unit itself is right only when it is not a surrogate
+		}
+		if k, isK := constBig(v); isK && k.Int64() == 0xFFFD {
+			return f.sur && f.pairInvalid // the replacement character only for an unpaired surrogate
+		}
+		if phi, isPhi := v.(*ssa.Phi); isPhi && !seen[phi] {
+			seen[phi] = true
+			for i, e := range phi.Edges {
+				if !judge6(e, factsOnEdge(phi.Block().Preds[i], phi.Block()), phi.Block().Preds[i], seen) {
+					return false
+				}
+			}
+			return true
+		}
+		return false
+	}
+	encodeFor := func(b *ssa.BasicBlock) *ssa.Call {
+		for d := b; d != nil; d = d.Idom() {
+			for i := len(d.Instrs) - 1; i >= 0; i-- {
+				if c, isCall := d.Instrs[i].(*ssa.Call); isCall && c.Call.StaticCallee() != nil && c.Call.StaticCallee().Name() == "EncodeRune" && len(c.Call.Args) == 2 {
+					return c
+				}
+			}
+		}
+		return nil
+	}
 	for _, b := range fn.Blocks {
 		ret, isRet := b.Instrs[len(b.Instrs)-1].(*ssa.Return)
 		if !isRet || len(ret.Results) != 3 {
@@ -604,38 +710,31 @@ func (x *Ctx) unescapeUnicodeRule(r *core.Result, rs *core.RuleStat) {
 			fail("return-shape", "bytes handled / ok are not constants per path", ret.Pos())
 			continue
 		}
-		okv := constant.BoolVal(okc.Value)
-		switch {
-		case !okv:
+		if !constant.BoolVal(okc.Value) {
 			continue
-		case n.Int64() == 12:
-			// dominated by IsSurrogate true and dec != U+FFFD; the rune encoded is dec
-			if !x.dominatedByBool(b, isSur, true) {
+		}
+		enc := encodeFor(b)
+		if enc == nil {
+			fail("encode", "a success path does not encode a rune", ret.Pos())
+			continue
+		}
+		f := factsAt(b)
+		switch n.Int64() {
+		case 12:
+			if !f.sur {
 				fail("pair-guard", "12 bytes are reported without the first unit being a surrogate", ret.Pos())
 			}
-			okDec := false
-			for d := b; d != nil; d = d.Idom() {
-				dom := d.Idom()
-				if dom == nil {
-					break
-				}
-				if iff, isIf := dom.Instrs[len(dom.Instrs)-1].(*ssa.If); isIf {
-					if be, isBe := iff.Cond.(*ssa.BinOp); isBe && be.Op == token.NEQ && be.X == ssa.Value(dec) {
-						if k, isK := constBig(be.Y); isK && k.Int64() == 0xFFFD && (dom.Succs[0] == b || dom.Succs[0].Dominates(b)) {
-							okDec = true
-						}
-					}
-				}
-			}
-			if !okDec {
+			if !f.pairValid {
 				fail("pair-valid", "12 bytes are reported although the pair may be invalid (DecodeRune returned U+FFFD)", ret.Pos())
 			}
-			if !x.encodes(b, dec) {
+			if enc.Call.Args[1] != ssa.Value(dec) {
 				fail("pair-encode", "the rune written for a valid pair is not DecodeRune's result", ret.Pos())
 			}
-		case n.Int64() == 6:
-			// encodes rr = phi(first, U+FFFD on the invalid-pair path)
-			if !x.encodesFirstOrReplacement(b, first, isSur) {
+		case 6:
+			if f.sur && f.pairValid {
+				fail("single-count", "a valid surrogate pair is reported as 6 bytes", ret.Pos())
+			}
+			if !judge6(enc.Call.Args[1], factsAt(enc.Block()), enc.Block(), map[ssa.Value]bool{}) {
 				fail("single-encode", "the rune written for a single escape is not the code unit itself (U+FFFD for an unpaired surrogate)", ret.Pos())
 			}
 		default:
@@ -646,50 +745,6 @@ func (x *Ctx) unescapeUnicodeRule(r *core.Result, rs *core.RuleStat) {
 		rs.OK(1)
 		rs.Sample("unescapeUnicodeChar: (…,12,true) only for a valid surrogate pair, encoding DecodeRune's result; otherwise 6 with the unit or U+FFFD; false only for a malformed first escape")
 	}
-}
-
-// encodes: block b calls utf8.EncodeRune(…, v).
-func (x *Ctx) encodes(b *ssa.BasicBlock, v ssa.Value) bool {
-	for _, ins := range b.Instrs {
-		if c, ok := ins.(*ssa.Call); ok && c.Call.StaticCallee() != nil && c.Call.StaticCallee().Name() == "EncodeRune" && len(c.Call.Args) == 2 && c.Call.Args[1] == v {
-			return true
-		}
-	}
-	return false
-}
-
-func (x *Ctx) encodesFirstOrReplacement(b *ssa.BasicBlock, first, isSur *ssa.Call) bool {
-	for _, ins := range b.Instrs {
-		c, ok := ins.(*ssa.Call)
-		if !ok || c.Call.StaticCallee() == nil || c.Call.StaticCallee().Name() != "EncodeRune" || len(c.Call.Args) != 2 {
-			continue
-		}
-		v := c.Call.Args[1]
-		if v == ssa.Value(first) {
-			// only valid when the unit is not a surrogate on every path here
-			return x.dominatedByBool(b, isSur, false)
-		}
-		phi, isPhi := v.(*ssa.Phi)
-		if !isPhi {
-			return false
-		}
-		for i, e := range phi.Edges {
-			pred := phi.Block().Preds[i]
-			if e == ssa.Value(first) {
-				// edge from the not-a-surrogate side
-				if x.dominatedByBool(pred, isSur, true) || pred == isSur.Block() && false {
-					return false
-				}
-				continue
-			}
-			if k, isK := constBig(e); isK && k.Int64() == 0xFFFD {
-				continue
-			}
-			return false
-		}
-		return true
-	}
-	return false
 }
 
 // stringContentRules: R06b-e.
